@@ -17,9 +17,30 @@
 //     assignment / element assignment / ++ -- / & / method call (with the method name and the class of its location
 //     argument) / bare use as a call argument (with callee and position) / channel send / receive;
 //   - the launch/join skeleton: loop variables, closure parameters and call arguments, whether the closure uses a
-//     loop variable, the send(s) on the done channel (exactly one on every path, last action, no return before it),
-//     how many goroutines are launched (loop bound, or a counter incremented once next to the go statement) and the
-//     later loop that receives exactly that many times;
+//     loop variable, and the JOIN in one of two forms — `chan`: the send(s) on the done channel (exactly one on every
+//     path, last action, no return before it), how many goroutines are launched (loop bound, or a counter incremented
+//     once next to the go statement; not assigned from the launch loop on) and the later loop that receives exactly that
+//     many times; `waitgroup`: a sync.WaitGroup declared in the enclosing function, Add(n) with n the launch count as a
+//     statement before the launch loop (or Add(1) next to each go statement, before it), exactly one Done() in the
+//     closure as the last action of every path (or deferred as its first statement), exactly one Wait() as a later
+//     statement of the list the launch loop is in with nothing in between that could leave the function, no other use;
+//   - the CELL COVERAGE in one of two forms — `direct`: the launch loop variable is passed to the closure as its cell
+//     parameter; `pool`: the closure ranges at its top level over a channel of cell indices that the enclosing function
+//     made with the capacity of the fill bound B, filled with exactly 0..B-1 by one counted loop whose body is that
+//     single send, closed before the launch loop (or: that loop and the close are the whole body of a dedicated goroutine
+//     started before the launch loop — any capacity then; such a filler is not a site of its own) and used for nothing
+//     else; the range variable is then the cell index
+//     and the range body (no break/continue/return/goto) the per-cell body; the worker count must be at least 1 whenever
+//     B is (runtime.GOMAXPROCS(0) / NumCPU() / a positive literal, at most clamped by `if W > B { W = B }`). Index
+//     vectors declared per worker are fine as long as they are pinned to the cell at the top level of the range body;
+//   - FOLLOWED CALLS: a method of the module called in the closure (m.runCell(i, …), views.Cell(i), cell.States() —
+//     the receiver's type is resolved syntactically from declarations, composite literals, result types and struct
+//     fields), and a plain function that is handed something shared or a task-local struct, is not judged by the call
+//     alone: its body is walked as part of the task in a callee FRAME whose parameters are bound to what the call
+//     passes (the cell index, a shared array, a goroutine-local vector with its pins, a task-local struct with
+//     per-field knowledge, a view with its provenance); its events are events of the site, its return statements give
+//     the provenance / vector / struct of the call's value. Recursion and nesting deeper than 6 are `unsupported`.
+//     Statements after a possible early return do not count as executed on every path (their pins do not count).
 //   - for the plain functions (kernels, extract/pack helpers, and what they call inside the repository) reachable from
 //     the closure: every assignment / ++ / copy / mutating method call whose target is not a local of that function
 //     (a package-level scratch buffer).
@@ -28,6 +49,15 @@
 // renaming or reordering statements does not change the facts. The rules themselves (what counts as a shared write,
 // which uses of a shared vector are read-only, …) are evaluated by OW/Sim/RunFactsCheck.lean on the emitted data;
 // this program additionally lists the violations it sees (field "violations") so that the check can name them.
+//
+// Provenance of values: fresh | viewOwn (a Slice of a whole shared array at a location pinned to the task's own cell) |
+// viewShared | whole (a shared object itself: a captured non-scalar, a field path of one, a parameter bound to one — for an
+// array, the whole array with the cell coordinate first) | alias (anything else that aliases something shared: reshaped or
+// unrolled arrays, dimension vectors, results of unknown methods). A mutating call is the task's own only through a viewOwn
+// or on a captured / whole array at an own location.
+//
+// NOT covered (as before): what a kernel writes through a view it is handed (a viewShared passed to a kernel that writes it)
+// — that is C04's frame oracle and the race detector.
 //
 // Knowledge about the data package that is used (and is therefore TRUSTED here, see C01/C02 for the array model):
 // Set/Set1/Set2/Set3/Apply/Apply1/ApplySlice/CopyFrom write to the receiver's storage; Slice returns a view that
@@ -94,8 +124,28 @@ type Site struct {
 	Unsupported    []string `json:"unsupported"` // constructs inside the closure the analysis does not follow (go, defer, func literal, goto, select, labels)
 	Events         []Event  `json:"events"`
 
-	Chan             string `json:"chan"`
-	ChanMake         string `json:"chan_make"` // unbuffered | buffered | unknown
+	Cover    string   `json:"cover"`    // how the cell indices reach the per-cell body: direct (launch loop variable passed to the closure) | pool (range over a channel of cell indices)
+	Followed []string `json:"followed"` // functions / methods of the module whose bodies were walked as part of the task
+
+	// worker pool (cover = pool): the channel of cell indices
+	PoolChan            string `json:"pool_chan"`
+	PoolChanMake        string `json:"pool_chan_make"`  // buffered | unbuffered | unknown
+	PoolCap             string `json:"pool_cap"`        // capacity expression of the make
+	PoolFillBound       string `json:"pool_fill_bound"` // B of the fill loop `for j := 0; j < B; j++ { cells <- j }`
+	PoolFillOk          bool   `json:"pool_fill_ok"`    // exactly one such loop, before the launch loop, its body that single send
+	PoolFiller          bool   `json:"pool_filler"`     // the fill loop and the close are the whole body of a dedicated goroutine started before the launch loop (capacity then irrelevant)
+	PoolCapMatches      bool   `json:"pool_cap_matches"`
+	PoolClosed          bool   `json:"pool_closed"` // close(cells) between the fill loop and the launch loop
+	PoolRangeClean      bool   `json:"pool_range_clean"` // `for i := range cells` at the top level of the worker, no break / continue / return / goto in its body, i not assigned
+	PoolOtherChanUses   int    `json:"pool_other_chan_uses"`
+	PoolBoundReassigned bool   `json:"pool_bound_reassigned"`
+	PoolWorkersPositive bool   `json:"pool_workers_positive"` // the worker count is at least 1 whenever the fill bound is (recognised definition)
+
+	Join             string `json:"join"` // chan | waitgroup | none
+	DoneDeferred     bool   `json:"done_deferred"` // waitgroup: `defer wg.Done()` is the first statement of the closure
+	AddForm          string `json:"add_form"`      // waitgroup: before (one Add(n) before the launch loop) | perLaunch (Add(1) next to the go statement) | ""
+	Chan             string `json:"chan"`          // the join object: the done channel / the WaitGroup
+	ChanMake         string `json:"chan_make"` // unbuffered | buffered | unknown | waitgroup
 	Sends            int    `json:"sends"`
 	SendTail         bool   `json:"send_tail"` // every path through the closure performs exactly one send on the channel, as its last action
 	RecvsInClosure   int    `json:"recvs_in_closure"`
@@ -208,10 +258,14 @@ const (
 	pFresh prov = iota
 	pViewOwn
 	pViewShared
-	pAlias
+	pWhole // a shared object itself (a captured non-scalar variable, a field path of one, a parameter bound to one): for an array, the whole array with the cell coordinate first
+	pAlias // anything else that aliases something shared (reshaped / unrolled arrays, dimension vectors, results of unknown methods)
 )
 
 func worse(a, b prov) prov {
+	if a != b && a != pFresh && b != pFresh && (a == pWhole || b == pWhole) {
+		return pAlias // the whole array on one path, something else on another
+	}
 	if b > a {
 		return b
 	}
@@ -225,16 +279,73 @@ type vecInfo struct {
 	reassigned bool
 }
 
+// binding: what a parameter (or the receiver) of a FOLLOWED callee stands for — the class of the argument at the call
+type binding struct {
+	class  string // captured | global | local
+	scalar bool
+}
+
+// frame: the function body being walked. The top frame is the goroutine closure (variables of the enclosing function are
+// `captured`); a callee frame is the body of a function or method of the module that the closure calls with something
+// shared — its parameters are bound to the classes of the arguments, everything declared inside it is local to the call.
+type frame struct {
+	scope   ast.Node // the function literal / the callee's declaration
+	outer   ast.Node // top frame: the enclosing function declaration; callee frames: nil
+	imports map[string]string
+	dir     string // directory of the package the code belongs to
+	bind    map[*ast.Object]*binding
+	top     bool
+	decl    *ast.FuncDecl // callee frames
+	ret     *absVal       // callee frames: what the return statements hand back (worst case over all of them)
+	nret    int
+}
+
+// absVal: what is known about a value — provenance of the array / vector it denotes, the goroutine-local position vector or
+// struct it is, whether it is the cell index
+type absVal struct {
+	p       prov
+	vec     *vecInfo
+	sv      *structVal
+	cell    bool
+	cellMod bool
+	typ     *typeRef
+}
+
+// structVal: a struct value created inside the task (composite literal / var / new): per-field knowledge. A struct that is
+// shared between the goroutines is not represented (its provenance is `alias`: every field of it is shared).
+type structVal struct {
+	fields map[string]*absVal
+}
+
+// typeRef: a named type of the module, resolved syntactically
+type typeRef struct {
+	dir  string
+	name string
+}
+
 type analyser struct {
+	root    string // repository root
 	file    *ast.File
-	imports map[string]string // local name -> import path
+	imports map[string]string // local name -> import path (of the frame being walked)
 	fn      *ast.FuncDecl
 	lit     *ast.FuncLit
+	fr      *frame
+	stack   []*ast.FuncDecl // callees being followed (recursion guard)
 	site    *Site
-	cellParam *ast.Object
+	cellObjs    map[*ast.Object]bool // the cell index: the closure parameter that receives the launch loop variable, or the range variable over the cell channel of a worker pool; and parameters of followed callees bound to it
+	cellModObjs map[*ast.Object]bool // parameters of followed callees bound to `cell % n`
+	structs map[*ast.Object]*structVal
+	types   map[*ast.Object]*typeRef
+	retOf   map[*ast.CallExpr]*absVal // followed calls: what they return
+	followed map[*ast.CallExpr]bool
+	extraCallees []calleeItem // callees of followed functions, with the package they are to be looked up in
+	joinObj *ast.Object // the sync.WaitGroup of the join, when the closure has no done channel
 	loopObjs  map[*ast.Object]bool
 	bodyObjs  map[*ast.Object]bool
 	chanObj   *ast.Object
+	curTop    bool // the statement being walked is executed on every path of the per-cell body
+	deferredDone *ast.DeferStmt
+	poolRange *ast.RangeStmt
 	prov    map[*ast.Object]prov
 	vec     map[*ast.Object]*vecInfo
 	declared map[string]bool
@@ -261,10 +372,13 @@ func (a *analyser) classify(id *ast.Ident) string {
 	}
 	switch o.Kind {
 	case ast.Var:
-		if within(o.Pos(), a.lit) {
+		if b := a.fr.bind[o]; b != nil {
+			return b.class
+		}
+		if within(o.Pos(), a.fr.scope) {
 			return "local"
 		}
-		if within(o.Pos(), a.fn) {
+		if a.fr.outer != nil && within(o.Pos(), a.fr.outer) {
 			return "captured"
 		}
 		return "global"
@@ -278,6 +392,9 @@ func (a *analyser) classify(id *ast.Ident) string {
 func (a *analyser) scalar(o *ast.Object) bool {
 	if o == nil {
 		return false
+	}
+	if b := a.fr.bind[o]; b != nil {
+		return b.scalar
 	}
 	switch d := o.Decl.(type) {
 	case *ast.Field:
@@ -340,6 +457,8 @@ func provName(p prov) string {
 		return "viewShared"
 	case pAlias:
 		return "alias"
+	case pWhole:
+		return "whole"
 	}
 	return "fresh"
 }
@@ -352,7 +471,7 @@ func (a *analyser) sharedRoot(e ast.Expr) (string, string, bool, *ast.Ident) {
 	}
 	switch a.classify(id) {
 	case "captured":
-		a.captured[id.Name] = true
+		a.noteCaptured(id.Name)
 		return "captured", show(e), a.scalar(id.Obj), id
 	case "global":
 		a.globals[id.Name] = true
@@ -361,18 +480,194 @@ func (a *analyser) sharedRoot(e ast.Expr) (string, string, bool, *ast.Ident) {
 		if p := a.prov[id.Obj]; p != pFresh {
 			return provName(p), show(e), false, id
 		}
+		if a.structs[id.Obj] != nil {
+			// a path through a task-local struct: shared as soon as a field on the way holds something shared
+			if p := a.provOf(e); p != pFresh {
+				return provName(p), show(e), false, id
+			}
+		}
 	}
 	return "", "", false, id
 }
 
+// container: the object a write to `lhs` modifies — x for x.f / x[i] / x[a:b] / *x
+func container(lhs ast.Expr) ast.Expr {
+	switch v := lhs.(type) {
+	case *ast.SelectorExpr:
+		return v.X
+	case *ast.IndexExpr:
+		return v.X
+	case *ast.SliceExpr:
+		return v.X
+	case *ast.StarExpr:
+		return v.X
+	case *ast.ParenExpr:
+		return container(v.X)
+	}
+	return nil
+}
+
+// isNewOf: new(T) — returns T
+func isNewOf(e ast.Expr) ast.Expr {
+	if c, ok := e.(*ast.CallExpr); ok {
+		if id, ok := c.Fun.(*ast.Ident); ok && id.Name == "new" && id.Obj == nil && len(c.Args) == 1 {
+			return c.Args[0]
+		}
+	}
+	return nil
+}
+
+func isStructLit(e ast.Expr) bool {
+	if u, ok := e.(*ast.UnaryExpr); ok && u.Op == token.AND {
+		e = u.X
+	}
+	cl, ok := e.(*ast.CompositeLit)
+	if !ok {
+		return false
+	}
+	switch cl.Type.(type) {
+	case *ast.Ident, *ast.SelectorExpr:
+	default:
+		return false
+	}
+	for _, x := range cl.Elts {
+		kv, ok := x.(*ast.KeyValueExpr)
+		if !ok {
+			return false
+		}
+		if _, ok := kv.Key.(*ast.Ident); !ok {
+			return false
+		}
+	}
+	return true
+}
+
+// newStruct: the task-local struct created by T{f: v, …} / &T{…}
+func (a *analyser) newStruct(e ast.Expr) *structVal {
+	if u, ok := e.(*ast.UnaryExpr); ok && u.Op == token.AND {
+		e = u.X
+	}
+	sv := &structVal{fields: map[string]*absVal{}}
+	for _, x := range e.(*ast.CompositeLit).Elts {
+		kv := x.(*ast.KeyValueExpr)
+		sv.fields[kv.Key.(*ast.Ident).Name] = a.absOf(kv.Value)
+	}
+	return sv
+}
+
 func (a *analyser) isCellParam(e ast.Expr) bool {
-	id, ok := e.(*ast.Ident)
-	return ok && a.cellParam != nil && id.Obj == a.cellParam
+	switch v := e.(type) {
+	case *ast.Ident:
+		return v.Obj != nil && a.cellObjs[v.Obj]
+	case *ast.ParenExpr:
+		return a.isCellParam(v.X)
+	case *ast.SelectorExpr:
+		if f := a.fieldOf(v); f != nil {
+			return f.cell
+		}
+	}
+	return false
 }
 
 func (a *analyser) isCellParamMod(e ast.Expr) bool {
-	b, ok := e.(*ast.BinaryExpr)
-	return ok && b.Op == token.REM && a.isCellParam(b.X)
+	switch v := e.(type) {
+	case *ast.BinaryExpr:
+		return v.Op == token.REM && a.isCellParam(v.X)
+	case *ast.Ident:
+		return v.Obj != nil && a.cellModObjs[v.Obj]
+	case *ast.ParenExpr:
+		return a.isCellParamMod(v.X)
+	case *ast.SelectorExpr:
+		if f := a.fieldOf(v); f != nil {
+			return f.cellMod
+		}
+	}
+	return false
+}
+
+// structOf: the task-local struct an expression denotes (x, &x, *x, (x), x.f where f holds one), nil if none
+func (a *analyser) structOf(e ast.Expr) *structVal {
+	switch v := e.(type) {
+	case *ast.Ident:
+		if v.Obj != nil {
+			return a.structs[v.Obj]
+		}
+	case *ast.ParenExpr:
+		return a.structOf(v.X)
+	case *ast.StarExpr:
+		return a.structOf(v.X)
+	case *ast.UnaryExpr:
+		if v.Op == token.AND {
+			return a.structOf(v.X)
+		}
+	case *ast.SelectorExpr:
+		if f := a.fieldOf(v); f != nil {
+			return f.sv
+		}
+	case *ast.CallExpr:
+		if r := a.retOf[v]; r != nil {
+			return r.sv
+		}
+	}
+	return nil
+}
+
+// fieldOf: x.f where x denotes a task-local struct: what is known about the field (a field never assigned holds its zero value)
+func (a *analyser) fieldOf(s *ast.SelectorExpr) *absVal {
+	sv := a.structOf(s.X)
+	if sv == nil {
+		return nil
+	}
+	f := sv.fields[s.Sel.Name]
+	if f == nil {
+		f = &absVal{}
+		sv.fields[s.Sel.Name] = f
+	}
+	return f
+}
+
+// absOf: what is known about the value of an expression
+func (a *analyser) absOf(e ast.Expr) *absVal {
+	v := &absVal{p: a.provOf(e), cell: a.isCellParam(e), cellMod: a.isCellParamMod(e), sv: a.structOf(e), typ: a.typeOf(e)}
+	switch x := e.(type) {
+	case *ast.Ident:
+		if x.Obj != nil && a.classify(x) == "local" {
+			v.vec = a.vec[x.Obj]
+		}
+	case *ast.SelectorExpr:
+		if f := a.fieldOf(x); f != nil {
+			v.vec = f.vec
+		}
+	case *ast.CallExpr:
+		if r := a.retOf[x]; r != nil {
+			v.vec = r.vec
+		} else if freshVector(e) {
+			v.vec = &vecInfo{fresh: true}
+		}
+	case *ast.CompositeLit:
+		if freshVector(e) {
+			v.vec = a.freshVec(e)
+		}
+	case *ast.ParenExpr:
+		return a.absOf(x.X)
+	}
+	return v
+}
+
+// freshVec: the vector info of a NewIndex / make / composite-literal right-hand side
+func (a *analyser) freshVec(rhs ast.Expr) *vecInfo {
+	vi := &vecInfo{fresh: true}
+	if cl, ok := rhs.(*ast.CompositeLit); ok && len(cl.Elts) > 0 {
+		switch {
+		case a.isCellParam(cl.Elts[0]):
+			vi.pin, vi.pinPos = "own", rhs.Pos()
+		case a.isCellParamMod(cl.Elts[0]):
+			vi.pin, vi.pinPos = "mod", rhs.Pos()
+		default:
+			vi.pin, vi.pinPos = "other", rhs.Pos()
+		}
+	}
+	return vi
 }
 
 // is the key expression of v[key] the cell coordinate? (1 yes, 0 no, -1 unknown)
@@ -395,6 +690,19 @@ func (a *analyser) cellKey(e ast.Expr) int {
 			}
 			if strings.HasPrefix(v.Sel.Name, "DIM") {
 				return 0 // another DIM constant of package sim (values checked globally: the CELL constants are 0, the others are not)
+			}
+		}
+	case *ast.Ident:
+		// the same constants, unqualified, inside package sim itself (per-cell view helpers that live there)
+		if v.Obj != nil && v.Obj.Kind != ast.Con {
+			return -1
+		}
+		if a.fr != nil && a.fr.dir == filepath.Join(a.root, "sim") {
+			if _, ok := a.cellDims[v.Name]; ok {
+				return 1
+			}
+			if strings.HasPrefix(v.Name, "DIM") {
+				return 0
 			}
 		}
 	}
@@ -422,17 +730,27 @@ func (a *analyser) locClass(e ast.Expr, at token.Pos) string {
 		case "captured", "global":
 			return "sharedVec"
 		case "local":
-			vi := a.vec[v.Obj]
-			if vi == nil || !vi.fresh || vi.reassigned {
-				return "localOther"
+			if a.cellModObjs[v.Obj] {
+				return "modLit"
 			}
-			if vi.pin == "own" && vi.pinPos < at {
-				return "ownVec"
+			return vecClass(a.vec[v.Obj])
+		}
+	case *ast.SelectorExpr:
+		// a field of a task-local struct that holds a goroutine-local position vector
+		if f := a.fieldOf(v); f != nil {
+			if f.cell {
+				return "ownLit"
 			}
-			if vi.pin == "mod" && vi.pinPos < at {
-				return "modVec"
+			if f.cellMod {
+				return "modLit"
 			}
-			return "localOther"
+			if f.p == pFresh {
+				return vecClass(f.vec)
+			}
+			return "sharedVec"
+		}
+		if a.provOf(v) != pFresh {
+			return "sharedVec"
 		}
 	case *ast.BinaryExpr:
 		if a.isCellParamMod(v) {
@@ -440,6 +758,21 @@ func (a *analyser) locClass(e ast.Expr, at token.Pos) string {
 		}
 	}
 	return "other"
+}
+
+// the pins are recorded as the statements are walked, in execution order (also across followed calls): a pin that is
+// recorded was made before the use being classified
+func vecClass(vi *vecInfo) string {
+	if vi == nil || !vi.fresh || vi.reassigned {
+		return "localOther"
+	}
+	if vi.pin == "own" {
+		return "ownVec"
+	}
+	if vi.pin == "mod" {
+		return "modVec"
+	}
+	return "localOther"
 }
 
 // provenance of the value of an expression
@@ -453,7 +786,7 @@ func (a *analyser) provOf(e ast.Expr) prov {
 			if a.scalar(v.Obj) {
 				return pFresh
 			}
-			return pAlias
+			return pWhole
 		case "global":
 			return pAlias
 		case "local":
@@ -470,15 +803,22 @@ func (a *analyser) provOf(e ast.Expr) prov {
 		if x, ok := v.X.(*ast.Ident); ok && a.classify(x) == "pkg" {
 			return pFresh // pkg.Const / pkg.Var read
 		}
+		if f := a.fieldOf(v); f != nil {
+			return f.p
+		}
 		return a.provOf(v.X)
 	case *ast.IndexExpr:
 		p := a.provOf(v.X)
-		if p == pAlias {
+		if p == pAlias || p == pWhole {
 			return pFresh // an element read out of a shared vector is a copy of a scalar (vectors of vectors do not occur: conservative enough, writes through it would need [] again)
 		}
 		return p
 	case *ast.SliceExpr:
-		return a.provOf(v.X)
+		if p := a.provOf(v.X); p == pWhole {
+			return pAlias
+		} else {
+			return p
+		}
 	case *ast.UnaryExpr:
 		if v.Op == token.AND {
 			if p := a.provOf(v.X); p != pFresh {
@@ -492,9 +832,27 @@ func (a *analyser) provOf(e ast.Expr) prov {
 			}
 		}
 		return pFresh
-	case *ast.CompositeLit, *ast.BasicLit, *ast.BinaryExpr, *ast.FuncLit:
+	case *ast.CompositeLit:
+		if isStructLit(v) {
+			// a struct holding something shared in a field is not itself shared; its fields are tracked when it is bound to a variable
+			return pFresh
+		}
+		// any other literal that holds something shared aliases it
+		for _, x := range v.Elts {
+			if kv, ok := x.(*ast.KeyValueExpr); ok {
+				x = kv.Value
+			}
+			if a.provOf(x) != pFresh {
+				return pAlias
+			}
+		}
+		return pFresh
+	case *ast.BasicLit, *ast.BinaryExpr, *ast.FuncLit:
 		return pFresh
 	case *ast.CallExpr:
+		if r := a.retOf[v]; r != nil {
+			return r.p // a followed call: what its return statements hand back
+		}
 		if s, ok := v.Fun.(*ast.SelectorExpr); ok {
 			if x, ok := s.X.(*ast.Ident); ok && a.classify(x) == "pkg" {
 				return a.worstArg(v)
@@ -510,7 +868,7 @@ func (a *analyser) provOf(e ast.Expr) prov {
 				if recv == pViewOwn {
 					return pViewOwn
 				}
-				if recv == pAlias && len(v.Args) > 0 {
+				if recv == pWhole && len(v.Args) > 0 {
 					lc := a.locClass(v.Args[0], v.Pos())
 					if lc == "ownLit" || lc == "ownVec" {
 						return pViewOwn
@@ -518,6 +876,9 @@ func (a *analyser) provOf(e ast.Expr) prov {
 				}
 				return pViewShared
 			case aliasing[m]:
+				if recv == pWhole {
+					return pAlias // a reshaped / unrolled whole array: the cell coordinate is no longer the first one
+				}
 				return recv
 			case m == "NewIndex":
 				return pFresh
@@ -551,6 +912,413 @@ func (a *analyser) worstArg(c *ast.CallExpr) prov {
 	return p
 }
 
+// ---------------------------------------------------------------------------------------------------------------
+// following calls into functions and methods of the module (named per-cell methods, per-cell view helpers)
+
+type calleeItem struct {
+	dir, name string
+}
+
+func (a *analyser) moduleDir(importPath string) (string, bool) {
+	if importPath == modulePath {
+		return a.root, true
+	}
+	if strings.HasPrefix(importPath, modulePath+"/") {
+		return filepath.Join(a.root, strings.TrimPrefix(importPath, modulePath+"/")), true
+	}
+	return "", false
+}
+
+// typeOfTypeExpr: the named module type a type expression denotes (through pointers), nil for anything else
+func (a *analyser) typeOfTypeExpr(e ast.Expr, dir string, imports map[string]string) *typeRef {
+	switch t := e.(type) {
+	case *ast.StarExpr:
+		return a.typeOfTypeExpr(t.X, dir, imports)
+	case *ast.ParenExpr:
+		return a.typeOfTypeExpr(t.X, dir, imports)
+	case *ast.Ident:
+		if basicTypes[t.Name] || t.Name == "error" || t.Name == "any" {
+			return nil
+		}
+		if _, ok := loadPkg(dir).types[t.Name]; ok {
+			return &typeRef{dir, t.Name}
+		}
+	case *ast.SelectorExpr:
+		if x, ok := t.X.(*ast.Ident); ok {
+			if p, ok := imports[x.Name]; ok {
+				if d, ok := a.moduleDir(p); ok {
+					if _, ok := loadPkg(d).types[t.Sel.Name]; ok {
+						return &typeRef{d, t.Sel.Name}
+					}
+				}
+			}
+		}
+	}
+	return nil
+}
+
+func (a *analyser) isStructType(t *typeRef) bool {
+	ts := loadPkg(t.dir).types[t.name]
+	if ts == nil {
+		return false
+	}
+	_, ok := ts.Type.(*ast.StructType)
+	return ok
+}
+
+// typeOf: the named module type of an expression, as far as the syntax tells (declarations, composite literals, result
+// types of resolved callees, struct fields); nil = unknown
+func (a *analyser) typeOf(e ast.Expr) *typeRef {
+	return a.typeOfDepth(e, 0)
+}
+
+func (a *analyser) typeOfDepth(e ast.Expr, depth int) *typeRef {
+	if depth > 8 || a.fr == nil {
+		return nil
+	}
+	dir, imports := a.fr.dir, a.fr.imports
+	switch v := e.(type) {
+	case *ast.ParenExpr:
+		return a.typeOfDepth(v.X, depth+1)
+	case *ast.StarExpr:
+		return a.typeOfDepth(v.X, depth+1)
+	case *ast.UnaryExpr:
+		if v.Op == token.AND {
+			return a.typeOfDepth(v.X, depth+1)
+		}
+	case *ast.CompositeLit:
+		if v.Type != nil {
+			return a.typeOfTypeExpr(v.Type, dir, imports)
+		}
+	case *ast.Ident:
+		if v.Obj == nil {
+			return nil
+		}
+		if t := a.types[v.Obj]; t != nil {
+			return t
+		}
+		switch d := v.Obj.Decl.(type) {
+		case *ast.Field:
+			return a.typeOfTypeExpr(d.Type, dir, imports)
+		case *ast.ValueSpec:
+			if d.Type != nil {
+				return a.typeOfTypeExpr(d.Type, dir, imports)
+			}
+			for i, n := range d.Names {
+				if n.Obj == v.Obj && i < len(d.Values) && len(d.Values) == len(d.Names) {
+					return a.typeOfDepth(d.Values[i], depth+1)
+				}
+			}
+		case *ast.AssignStmt:
+			if d.Tok == token.DEFINE && len(d.Lhs) == len(d.Rhs) {
+				for i, l := range d.Lhs {
+					if id, ok := l.(*ast.Ident); ok && id.Obj == v.Obj {
+						return a.typeOfDepth(d.Rhs[i], depth+1)
+					}
+				}
+			}
+		}
+	case *ast.SelectorExpr:
+		if x, ok := v.X.(*ast.Ident); ok && a.classify(x) == "pkg" {
+			return nil
+		}
+		if t := a.typeOfDepth(v.X, depth+1); t != nil {
+			p := loadPkg(t.dir)
+			if ts := p.types[t.name]; ts != nil {
+				if st, ok := ts.Type.(*ast.StructType); ok {
+					for _, f := range st.Fields.List {
+						for _, n := range f.Names {
+							if n.Name == v.Sel.Name {
+								return a.typeOfTypeExpr(f.Type, t.dir, importsOf(p.typeFile[t.name]))
+							}
+						}
+					}
+				}
+			}
+		}
+	case *ast.CallExpr:
+		if id, ok := v.Fun.(*ast.Ident); ok && id.Name == "new" && id.Obj == nil && len(v.Args) == 1 {
+			return a.typeOfTypeExpr(v.Args[0], dir, imports)
+		}
+		if decl, ddir, file, _ := a.resolveCallee(v, depth+1); decl != nil && decl.Type.Results != nil && len(decl.Type.Results.List) > 0 {
+			return a.typeOfTypeExpr(decl.Type.Results.List[0].Type, ddir, importsOf(file))
+		}
+	}
+	return nil
+}
+
+// resolveCallee: the declaration in the module that a call reaches — f(…), pkg.F(…), x.M(…) with x of a known module type
+func (a *analyser) resolveCallee(c *ast.CallExpr, depth int) (*ast.FuncDecl, string, *ast.File, ast.Expr) {
+	switch f := c.Fun.(type) {
+	case *ast.Ident:
+		cl := a.classify(f)
+		if (cl == "static" || cl == "global") && !builtins[f.Name] {
+			p := loadPkg(a.fr.dir)
+			if d := p.funcs[f.Name]; d != nil {
+				return d, a.fr.dir, p.fileOf[d], nil
+			}
+		}
+	case *ast.SelectorExpr:
+		if x, ok := f.X.(*ast.Ident); ok && a.classify(x) == "pkg" {
+			if ip, ok := a.fr.imports[x.Name]; ok {
+				if d, ok := a.moduleDir(ip); ok {
+					p := loadPkg(d)
+					if fd := p.funcs[f.Sel.Name]; fd != nil {
+						return fd, d, p.fileOf[fd], nil
+					}
+				}
+			}
+			return nil, "", nil, nil
+		}
+		if t := a.typeOfDepth(f.X, depth+1); t != nil {
+			p := loadPkg(t.dir)
+			if fd := p.methods[t.name+"."+f.Sel.Name]; fd != nil {
+				return fd, t.dir, p.fileOf[fd], f.X
+			}
+		}
+	}
+	return nil, "", nil, nil
+}
+
+func bareArg(x ast.Expr) ast.Expr {
+	if u, ok := x.(*ast.UnaryExpr); ok && u.Op == token.AND {
+		x = u.X
+	}
+	if s, ok := x.(*ast.SliceExpr); ok {
+		x = s.X
+	}
+	if p, ok := x.(*ast.ParenExpr); ok {
+		x = p.X
+	}
+	return x
+}
+
+// wantFollow: a function or method of the module is followed when it is handed — as an argument or as its receiver —
+// something shared (a captured or package-level non-scalar other than the join object, anything that aliases one) or a
+// task-local struct: what the closure-level rules cannot judge from the call alone. Kernels called with goroutine-local
+// views and scalars, and methods of goroutine-local objects, are not followed (callee scan only).
+func (a *analyser) wantFollow(c *ast.CallExpr, recv ast.Expr) bool {
+	if recv != nil && (a.structOf(recv) != nil || a.provOf(recv) != pFresh) {
+		return true
+	}
+	for _, x := range c.Args {
+		if a.structOf(x) != nil {
+			return true
+		}
+		if id, ok := bareArg(x).(*ast.Ident); ok && id.Obj != nil {
+			cl := a.classify(id)
+			if (cl == "captured" || cl == "global") && !a.scalar(id.Obj) && !a.isJoinObj(id.Obj) {
+				return true
+			}
+		}
+	}
+	return false
+}
+
+func (a *analyser) isJoinObj(o *ast.Object) bool {
+	return o != nil && (o == a.chanObj || o == a.joinObj)
+}
+
+const maxFollowDepth = 6
+
+// follow walks the body of the callee as part of the task, with its parameters bound to what the call passes.
+func (a *analyser) follow(c *ast.CallExpr, decl *ast.FuncDecl, dir string, file *ast.File, recv ast.Expr, top bool) {
+	name := funcName(decl)
+	for _, d := range a.stack {
+		if d == decl {
+			a.site.Unsupported = append(a.site.Unsupported, fmt.Sprintf("recursive call of %s at line %d", name, line(c)))
+			a.retOf[c] = &absVal{p: pAlias}
+			return
+		}
+	}
+	if len(a.stack) >= maxFollowDepth {
+		a.site.Unsupported = append(a.site.Unsupported, fmt.Sprintf("call of %s at line %d nested deeper than %d followed calls", name, line(c), maxFollowDepth))
+		a.retOf[c] = &absVal{p: pAlias}
+		return
+	}
+	a.followed[c] = true
+	a.site.Followed = appendUnique(a.site.Followed, name)
+	fr := &frame{scope: decl, imports: importsOf(file), dir: dir, bind: map[*ast.Object]*binding{}, decl: decl}
+
+	// the arguments, evaluated in the caller's frame
+	type bound struct {
+		obj *ast.Object
+		b   *binding
+		v   *absVal
+	}
+	var bs []bound
+	bindOne := func(p *ast.Ident, arg ast.Expr, typ ast.Expr) {
+		if p == nil || p.Obj == nil || p.Name == "_" {
+			return
+		}
+		v := a.absOf(arg)
+		b := &binding{class: "local"}
+		if id, ok := bareArg(arg).(*ast.Ident); ok && id.Obj != nil {
+			switch cl := a.classify(id); cl {
+			case "captured", "global":
+				if a.scalar(id.Obj) {
+					if _, isAddr := arg.(*ast.UnaryExpr); isAddr {
+						v.p = pAlias
+					}
+				} else {
+					b.class = cl
+				}
+			}
+		}
+		if t, ok := typ.(*ast.Ident); ok && basicTypes[t.Name] {
+			b.scalar = true
+			if b.class != "local" {
+				b.class = "local" // a copy of a scalar
+				v.p = pFresh
+			}
+		}
+		bs = append(bs, bound{p.Obj, b, v})
+	}
+	if recv != nil && decl.Recv != nil && len(decl.Recv.List) == 1 && len(decl.Recv.List[0].Names) == 1 {
+		bindOne(decl.Recv.List[0].Names[0], recv, decl.Recv.List[0].Type)
+	}
+	i := 0
+	if decl.Type.Params != nil {
+		for _, f := range decl.Type.Params.List {
+			_, variadic := f.Type.(*ast.Ellipsis)
+			for _, n := range f.Names {
+				switch {
+				case variadic:
+					// the remaining arguments as one fresh slice of copies (scalars) — anything shared among them makes it an alias
+					v := &absVal{}
+					for _, x := range c.Args[min(i, len(c.Args)):] {
+						v.p = worse(v.p, a.provOf(x))
+					}
+					if v.p != pFresh {
+						v.p = pAlias
+					}
+					if n.Obj != nil && n.Name != "_" {
+						bs = append(bs, bound{n.Obj, &binding{class: "local"}, v})
+					}
+					i = len(c.Args)
+				case i < len(c.Args):
+					bindOne(n, c.Args[i], f.Type)
+					i++
+				}
+			}
+			if len(f.Names) == 0 {
+				i++
+			}
+		}
+	}
+
+	// a fresh activation: forget what an earlier call of the same function left about its locals
+	ast.Inspect(decl, func(x ast.Node) bool {
+		if id, ok := x.(*ast.Ident); ok && id.Obj != nil && id.Obj.Pos() == id.Pos() {
+			delete(a.prov, id.Obj)
+			delete(a.vec, id.Obj)
+			delete(a.structs, id.Obj)
+			delete(a.types, id.Obj)
+			delete(a.cellObjs, id.Obj)
+			delete(a.cellModObjs, id.Obj)
+		}
+		return true
+	})
+	for _, b := range bs {
+		fr.bind[b.obj] = b.b
+		if b.b.class == "local" {
+			a.prov[b.obj] = b.v.p
+			if b.v.vec != nil {
+				a.vec[b.obj] = b.v.vec
+			} else {
+				a.vec[b.obj] = &vecInfo{}
+			}
+			if b.v.sv != nil {
+				a.structs[b.obj] = b.v.sv
+			}
+		}
+		if b.v.cell {
+			a.cellObjs[b.obj] = true
+		}
+		if b.v.cellMod {
+			a.cellModObjs[b.obj] = true
+		}
+		if b.v.typ != nil {
+			a.types[b.obj] = b.v.typ
+		}
+	}
+
+	savedFr, savedImports, savedTop := a.fr, a.imports, a.curTop
+	a.fr, a.imports = fr, fr.imports
+	a.stack = append(a.stack, decl)
+	if decl.Body != nil {
+		a.stmts(decl.Body.List, top)
+	} else {
+		a.site.Unsupported = append(a.site.Unsupported, fmt.Sprintf("%s has no Go body (line %d)", name, line(c)))
+	}
+	a.stack = a.stack[:len(a.stack)-1]
+	a.fr, a.imports, a.curTop = savedFr, savedImports, savedTop
+	if fr.ret == nil {
+		fr.ret = &absVal{}
+	}
+	if fr.ret.typ == nil && decl.Type.Results != nil && len(decl.Type.Results.List) > 0 {
+		fr.ret.typ = a.typeOfTypeExpr(decl.Type.Results.List[0].Type, dir, fr.imports)
+	}
+	a.retOf[c] = fr.ret
+}
+
+// returned: a return statement of a followed callee
+func (a *analyser) returned(v *ast.ReturnStmt) {
+	fr := a.fr
+	results := v.Results
+	if len(results) == 0 && fr.decl != nil && fr.decl.Type.Results != nil {
+		for _, f := range fr.decl.Type.Results.List {
+			for _, n := range f.Names {
+				results = append(results, n)
+			}
+		}
+	}
+	r := &absVal{}
+	if len(results) == 1 {
+		r = a.absOf(results[0])
+		if isStructLit(results[0]) {
+			r.sv = a.newStruct(results[0])
+		}
+	} else {
+		for _, x := range results {
+			r.p = worse(r.p, a.provOf(x))
+		}
+	}
+	fr.nret++
+	if fr.ret == nil {
+		fr.ret = r
+		return
+	}
+	o := fr.ret
+	o.p = worse(o.p, r.p)
+	if o.vec != r.vec {
+		o.vec = nil
+	}
+	if o.sv != r.sv {
+		o.sv = nil
+		if r.sv != nil || fr.nret > 1 {
+			// different structs on different paths: nothing is known about the fields; what they may hold is the worst seen
+			o.p = worse(o.p, pAlias)
+		}
+	}
+	o.cell = o.cell && r.cell
+	o.cellMod = o.cellMod && r.cellMod
+}
+
+func containsReturn(n ast.Node) bool {
+	found := false
+	ast.Inspect(n, func(x ast.Node) bool {
+		switch x.(type) {
+		case *ast.FuncLit:
+			return false
+		case *ast.ReturnStmt:
+			found = true
+		}
+		return !found
+	})
+	return found
+}
+
 func freshVector(e ast.Expr) bool {
 	switch v := e.(type) {
 	case *ast.CompositeLit:
@@ -570,7 +1338,9 @@ func (a *analyser) define(id *ast.Ident, rhs ast.Expr, multi bool, p prov) {
 	if id.Name == "_" || id.Obj == nil {
 		return
 	}
-	a.declared[id.Name] = true
+	if a.fr.top {
+		a.declared[id.Name] = true
+	}
 	if old, ok := a.prov[id.Obj]; ok {
 		p = worse(p, old)
 	}
@@ -580,16 +1350,33 @@ func (a *analyser) define(id *ast.Ident, rhs ast.Expr, multi bool, p prov) {
 		return
 	}
 	vi := &vecInfo{}
-	if !multi && rhs != nil && freshVector(rhs) {
-		vi.fresh = true
-		if cl, ok := rhs.(*ast.CompositeLit); ok && len(cl.Elts) > 0 {
-			switch {
-			case a.isCellParam(cl.Elts[0]):
-				vi.pin, vi.pinPos = "own", rhs.Pos()
-			case a.isCellParamMod(cl.Elts[0]):
-				vi.pin, vi.pinPos = "mod", rhs.Pos()
-			default:
-				vi.pin, vi.pinPos = "other", rhs.Pos()
+	if !multi && rhs != nil {
+		if t := a.typeOf(rhs); t != nil {
+			a.types[id.Obj] = t
+		}
+		switch {
+		case isStructLit(rhs):
+			a.structs[id.Obj] = a.newStruct(rhs)
+		case isNewOf(rhs) != nil && a.typeOf(rhs) != nil && a.isStructType(a.typeOf(rhs)):
+			a.structs[id.Obj] = &structVal{fields: map[string]*absVal{}} // new(T): the zero value of a struct type of the module
+		case a.structOf(rhs) != nil:
+			a.structs[id.Obj] = a.structOf(rhs) // same struct (a pointer to it, or a copy whose slice fields share their storage)
+		case freshVector(rhs):
+			vi = a.freshVec(rhs)
+		default:
+			if r := a.absOf(rhs); r.vec != nil && r.p == pFresh {
+				vi = r.vec // the goroutine-local vector a followed call or a struct field hands back
+			}
+		}
+		if rhs != nil && a.isCellParam(rhs) && a.fr != nil && !a.fr.top {
+			a.cellObjs[id.Obj] = true
+		}
+	} else if rhs == nil {
+		if vs, ok := id.Obj.Decl.(*ast.ValueSpec); ok && vs.Type != nil {
+			// var c T: the zero value of a struct type of the module is a task-local struct
+			if t := a.typeOfTypeExpr(vs.Type, a.fr.dir, a.fr.imports); t != nil && a.isStructType(t) {
+				a.types[id.Obj] = t
+				a.structs[id.Obj] = &structVal{fields: map[string]*absVal{}}
 			}
 		}
 	}
@@ -601,7 +1388,7 @@ func (a *analyser) target(lhs ast.Expr, stmt ast.Node, rhs ast.Expr, topLevel bo
 	if id, ok := lhs.(*ast.Ident); ok {
 		switch a.classify(id) {
 		case "captured":
-			a.captured[id.Name] = true
+			a.noteCaptured(id.Name)
 			a.ev(stmt, id.Name, "captured", a.scalar(id.Obj), "assign", "", "none", 0, false)
 		case "global":
 			a.globals[id.Name] = true
@@ -623,10 +1410,56 @@ func (a *analyser) target(lhs ast.Expr, stmt ast.Node, rhs ast.Expr, topLevel bo
 	if root != "" {
 		a.ev(stmt, name, root, sc, "elemAssign", "", "none", 0, false)
 	} else if id != nil && a.classify(id) == "local" {
-		// pinning of a goroutine-local position vector: v[key] = rhs
+		// something shared stored into a goroutine-local container that is not tracked field by field (x.f = shared with x of
+		// unknown type, xs[k] = shared): the container aliases it from now on
+		if rhs != nil && a.provOf(rhs) != pFresh && id.Obj != nil {
+			tracked := false
+			if sel, ok := lhs.(*ast.SelectorExpr); ok && a.structOf(sel.X) != nil {
+				tracked = true
+			}
+			if !tracked {
+				a.prov[id.Obj] = worse(a.prov[id.Obj], pAlias)
+			}
+		}
+		// a field of a task-local struct: c.f = rhs
+		if sel, ok := lhs.(*ast.SelectorExpr); ok {
+			if sv := a.structOf(sel.X); sv != nil {
+				var nv *absVal
+				if rhs != nil {
+					nv = a.absOf(rhs)
+					if isStructLit(rhs) {
+						nv.sv = a.newStruct(rhs)
+					}
+				} else {
+					nv = &absVal{}
+				}
+				if old := sv.fields[sel.Sel.Name]; old != nil {
+					nv.p = worse(nv.p, old.p)
+					if old.vec != nil && old.vec != nv.vec {
+						old.vec.reassigned = true
+						if nv.vec != nil {
+							nv.vec.reassigned = true
+						}
+					}
+				}
+				sv.fields[sel.Sel.Name] = nv
+			}
+		}
+		// pinning of a goroutine-local position vector: v[key] = rhs (v a local, or a field of a task-local struct)
 		if ix, ok := lhs.(*ast.IndexExpr); ok {
-			if base, ok := ix.X.(*ast.Ident); ok && base.Obj != nil {
-				if vi := a.vec[base.Obj]; vi != nil {
+			var vi *vecInfo
+			switch base := ix.X.(type) {
+			case *ast.Ident:
+				if base.Obj != nil {
+					vi = a.vec[base.Obj]
+				}
+			case *ast.SelectorExpr:
+				if f := a.fieldOf(base); f != nil {
+					vi = f.vec
+				}
+			}
+			{
+				if vi != nil {
 					switch a.cellKey(ix.Index) {
 					case 1:
 						np := "other"
@@ -661,7 +1494,7 @@ func (a *analyser) expr(e ast.Expr, isTarget bool) {
 	case *ast.Ident:
 		switch a.classify(v) {
 		case "captured":
-			a.captured[v.Name] = true
+			a.noteCaptured(v.Name)
 			if a.loopObjs[v.Obj] {
 				a.site.CapturesLoopVar = true
 			}
@@ -728,14 +1561,46 @@ func appendUnique(l []string, s string) []string {
 	return append(l, s)
 }
 
+func (a *analyser) noteCaptured(name string) {
+	if a.fr.top {
+		a.captured[name] = true
+	}
+}
+
+// noteCallee: a function the task calls without being followed — scanned for writes to package-level state
+func (a *analyser) noteCallee(name string) {
+	if a.fr.top {
+		a.callees[name] = true
+		return
+	}
+	dir := a.fr.dir
+	if i := strings.Index(name, "."); i >= 0 {
+		d, ok := a.moduleDir(a.fr.imports[name[:i]])
+		if !ok {
+			return
+		}
+		dir, name = d, name[i+1:]
+	}
+	a.extraCallees = append(a.extraCallees, calleeItem{dir, name})
+}
+
 func (a *analyser) call(c *ast.CallExpr) {
 	callee := ""
 	isMethod := false
+	decl, ddir, dfile, drecv := a.resolveCallee(c, 0)
+	doFollow := decl != nil && a.wantFollow(c, drecv)
+	top := a.curTop
+	if doFollow {
+		// the followed function is also scanned like every other callee (methods called on package-level variables)
+		a.extraCallees = append(a.extraCallees, calleeItem{ddir, funcName(decl)})
+	}
 	switch f := c.Fun.(type) {
 	case *ast.SelectorExpr:
 		if x, ok := f.X.(*ast.Ident); ok && a.classify(x) == "pkg" {
 			callee = x.Name + "." + f.Sel.Name
-			a.callees[callee] = true
+			if !doFollow {
+				a.noteCallee(callee)
+			}
 		} else {
 			isMethod = true
 			callee = f.Sel.Name
@@ -760,8 +1625,8 @@ func (a *analyser) call(c *ast.CallExpr) {
 		callee = f.Name
 		switch a.classify(f) {
 		case "static", "global":
-			if !builtins[f.Name] {
-				a.callees[f.Name] = true
+			if !builtins[f.Name] && !doFollow {
+				a.noteCallee(f.Name)
 			}
 		case "captured", "local":
 			a.site.Unsupported = append(a.site.Unsupported, fmt.Sprintf("call through function value %s at line %d", f.Name, line(c)))
@@ -784,7 +1649,7 @@ func (a *analyser) call(c *ast.CallExpr) {
 		}
 		if id, ok := bare.(*ast.Ident); ok {
 			cl := a.classify(id)
-			if cl == "captured" || cl == "global" {
+			if (cl == "captured" || cl == "global") && !doFollow {
 				if !(callee == "len" || callee == "cap" || basicTypes[callee]) {
 					root := cl
 					a.ev(c, id.Name, root, cl == "captured" && a.scalar(id.Obj), "arg", callee, "none", i, isMethod)
@@ -793,17 +1658,27 @@ func (a *analyser) call(c *ast.CallExpr) {
 		}
 		a.expr(x, false)
 	}
+	if doFollow {
+		// the arguments are bound to the callee's parameters and its body is walked as part of this task
+		a.follow(c, decl, ddir, dfile, drecv, top)
+	}
 }
 
 // sendTail: does every path through the statement list end with exactly one send on the channel, with no other
 // send before it?  returns (ok, number of send statements seen)
 func (a *analyser) sendsIn(n ast.Node) int {
 	c := 0
+	if n == nil {
+		return 0
+	}
 	ast.Inspect(n, func(x ast.Node) bool {
-		if s, ok := x.(*ast.SendStmt); ok {
+		if s, ok := x.(*ast.SendStmt); ok && a.chanObj != nil {
 			if id := rootIdent(s.Chan); id != nil && id.Obj == a.chanObj {
 				c++
 			}
+		}
+		if call, ok := x.(*ast.CallExpr); ok && a.wgCall(call) == "Done" {
+			c++
 		}
 		return true
 	})
@@ -811,12 +1686,88 @@ func (a *analyser) sendsIn(n ast.Node) int {
 }
 
 func (a *analyser) isSend(s ast.Stmt) bool {
+	if es, ok := s.(*ast.ExprStmt); ok {
+		if call, ok := es.X.(*ast.CallExpr); ok && a.wgCall(call) == "Done" {
+			return true
+		}
+		return false
+	}
 	x, ok := s.(*ast.SendStmt)
-	if !ok {
+	if !ok || a.chanObj == nil {
 		return false
 	}
 	id, ok := x.Chan.(*ast.Ident)
 	return ok && id.Obj == a.chanObj
+}
+
+// wgCall: wg.Add / wg.Done / wg.Wait on the join WaitGroup ("" otherwise)
+func (a *analyser) wgCall(c *ast.CallExpr) string {
+	if a.joinObj == nil {
+		return ""
+	}
+	s, ok := c.Fun.(*ast.SelectorExpr)
+	if !ok {
+		return ""
+	}
+	id, ok := s.X.(*ast.Ident)
+	if !ok || id.Obj != a.joinObj {
+		return ""
+	}
+	switch s.Sel.Name {
+	case "Add":
+		if len(c.Args) == 1 {
+			return "Add"
+		}
+	case "Done", "Wait":
+		if len(c.Args) == 0 {
+			return s.Sel.Name
+		}
+	}
+	return ""
+}
+
+// isWaitGroupDecl: the object is a local declared as a sync.WaitGroup value (var wg sync.WaitGroup / wg := sync.WaitGroup{} / &… / new)
+func (a *analyser) isWaitGroupDecl(o *ast.Object) bool {
+	isWG := func(e ast.Expr) bool {
+		s, ok := e.(*ast.SelectorExpr)
+		if !ok || s.Sel.Name != "WaitGroup" {
+			return false
+		}
+		x, ok := s.X.(*ast.Ident)
+		return ok && a.imports[x.Name] == "sync"
+	}
+	var rhs ast.Expr
+	switch d := o.Decl.(type) {
+	case *ast.ValueSpec:
+		if d.Type != nil {
+			return isWG(d.Type) && len(d.Values) == 0
+		}
+		for i, n := range d.Names {
+			if n.Obj == o && i < len(d.Values) {
+				rhs = d.Values[i]
+			}
+		}
+	case *ast.AssignStmt:
+		if d.Tok == token.DEFINE && len(d.Lhs) == len(d.Rhs) {
+			for i, l := range d.Lhs {
+				if id, ok := l.(*ast.Ident); ok && id.Obj == o {
+					rhs = d.Rhs[i]
+				}
+			}
+		}
+	}
+	if u, ok := rhs.(*ast.UnaryExpr); ok && u.Op == token.AND {
+		rhs = u.X
+	}
+	if cl, ok := rhs.(*ast.CompositeLit); ok {
+		return isWG(cl.Type) && len(cl.Elts) == 0
+	}
+	if c, ok := rhs.(*ast.CallExpr); ok {
+		if id, ok := c.Fun.(*ast.Ident); ok && id.Name == "new" && len(c.Args) == 1 {
+			return isWG(c.Args[0])
+		}
+	}
+	return false
 }
 
 func (a *analyser) tailOK(list []ast.Stmt) bool {
@@ -832,6 +1783,8 @@ func (a *analyser) tailOK(list []ast.Stmt) bool {
 	switch v := last.(type) {
 	case *ast.SendStmt:
 		return a.isSend(v) && a.sendsIn(v.Value) == 0
+	case *ast.ExprStmt:
+		return a.isSend(v)
 	case *ast.BlockStmt:
 		return a.tailOK(v.List)
 	case *ast.IfStmt:
@@ -855,12 +1808,16 @@ func (a *analyser) tailOK(list []ast.Stmt) bool {
 }
 
 func (a *analyser) stmts(list []ast.Stmt, top bool) {
-	for _, s := range list {
+	for i, s := range list {
 		a.stmt(s, top)
+		if top && i < len(list)-1 && containsReturn(s) {
+			top = false // what follows a possible early return is not executed on every path
+		}
 	}
 }
 
 func (a *analyser) stmt(s ast.Stmt, top bool) {
+	a.curTop = top
 	switch v := s.(type) {
 	case nil:
 	case *ast.AssignStmt:
@@ -917,16 +1874,28 @@ func (a *analyser) stmt(s ast.Stmt, top bool) {
 	case *ast.SendStmt:
 		if root, name, sc, id := a.sharedRoot(v.Chan); root != "" {
 			a.ev(v, name, root, sc, "send", "", "none", 0, false)
-			if id != nil && id.Obj == a.chanObj {
+			if id != nil && a.chanObj != nil && id.Obj == a.chanObj {
 				a.site.Sends++
 			}
 		}
 		a.expr(v.Chan, false)
 		a.expr(v.Value, false)
 	case *ast.ReturnStmt:
-		a.site.ReturnsInClosure++
+		if a.fr.top {
+			a.site.ReturnsInClosure++
+		}
 		for _, r := range v.Results {
 			a.expr(r, false)
+		}
+		if !a.fr.top {
+			a.returned(v)
+		}
+	case *ast.DeferStmt:
+		if a.fr.top && v == a.deferredDone {
+			// `defer wg.Done()` as the first statement of the closure: the join signal of every path
+			a.ev(v, show(v.Call.Fun.(*ast.SelectorExpr).X), "captured", false, "call", "Done", "none", 0, true)
+		} else {
+			a.site.Unsupported = append(a.site.Unsupported, fmt.Sprintf("%T at line %d", s, line(s)))
 		}
 	case *ast.BlockStmt:
 		a.stmts(v.List, top)
@@ -942,6 +1911,16 @@ func (a *analyser) stmt(s ast.Stmt, top bool) {
 		a.stmts(v.Body.List, false)
 	case *ast.RangeStmt:
 		a.expr(v.X, false)
+		if a.fr.top && v == a.poolRange {
+			// worker pool: the range variable over the cell channel is the cell index; the loop body is the per-cell body
+			if id, ok := v.Key.(*ast.Ident); ok && id.Obj != nil {
+				a.declared[id.Name] = true
+				a.prov[id.Obj] = pFresh
+				a.vec[id.Obj] = &vecInfo{}
+			}
+			a.stmts(v.Body.List, true)
+			return
+		}
 		if v.Tok == token.DEFINE {
 			for _, k := range []ast.Expr{v.Key, v.Value} {
 				if id, ok := k.(*ast.Ident); ok {
@@ -1181,7 +2160,23 @@ func (a *analyser) skeleton(g *ast.GoStmt) {
 
 	var countObj *ast.Object
 	expected := 0 // assignments to the count variable that are part of the pattern
+	// the window in which the launch count must not change: from the launch loop (or the WaitGroup's Add(n) before it) to the
+	// end of the function — what is assigned BEFORE that point only determines the value the count has when it is first read
+	window := lc.loop.Pos()
+	var addBefore *ast.CallExpr
+	if a.joinObj != nil {
+		for _, st := range lc.parent[:lc.index] {
+			if es, ok := st.(*ast.ExprStmt); ok {
+				if c, ok := es.X.(*ast.CallExpr); ok && a.wgCall(c) == "Add" {
+					addBefore = c
+					window = st.Pos()
+				}
+			}
+		}
+	}
+	counted := false
 	if v, b := countedLoop(lc.loop); v != nil {
+		counted = true
 		s.LaunchForm = "counted"
 		s.LaunchCount = show(b)
 		s.LaunchLoopClean = !hasEscape(lc.body, true) && assignmentsTo(lc.body, v) == 0
@@ -1189,7 +2184,7 @@ func (a *analyser) skeleton(g *ast.GoStmt) {
 			countObj = id.Obj
 		}
 		for _, id := range identsOf(b) {
-			if assignmentsTo(a.fn.Body, id.Obj) > 0 {
+			if assignmentsFrom(a.fn.Body, id.Obj, window) > 0 {
 				s.CountReassigned = true
 			}
 		}
@@ -1226,8 +2221,16 @@ func (a *analyser) skeleton(g *ast.GoStmt) {
 			break
 		}
 	}
-	if countObj != nil && assignmentsTo(a.fn.Body, countObj) != expected {
+	if countObj != nil && !counted && assignmentsTo(a.fn.Body, countObj) != expected {
 		s.CountReassigned = true
+	}
+
+	if a.joinObj != nil {
+		a.wgSkeleton(lc, goIdx, addBefore, countObj)
+		return
+	}
+	if a.chanObj == nil {
+		return // neither a done channel nor a WaitGroup: no join to describe
 	}
 
 	// the receive loop: a later sibling of the launch loop
@@ -1292,6 +2295,386 @@ func (a *analyser) skeleton(g *ast.GoStmt) {
 	if !s.RecvLoopFound {
 		s.OtherChanUses = uses - s.Sends
 	}
+}
+
+// assignmentsFrom: assignments to the object at or after `from` in source order, plus — wherever they are — those made inside
+// function literals (which run at a time the position does not tell) and every place its address is taken
+func assignmentsFrom(n ast.Node, o *ast.Object, from token.Pos) int {
+	c := 0
+	var visit func(n ast.Node, inLit bool)
+	visit = func(n ast.Node, inLit bool) {
+		ast.Inspect(n, func(x ast.Node) bool {
+			if x == nil {
+				return false
+			}
+			late := inLit || x.Pos() >= from
+			switch v := x.(type) {
+			case *ast.FuncLit:
+				if !inLit {
+					visit(v.Body, true)
+					return false
+				}
+			case *ast.AssignStmt:
+				for _, l := range v.Lhs {
+					if id := rootIdent(l); id != nil && id.Obj == o && !(v.Tok == token.DEFINE && id.Pos() == o.Pos()) && late {
+						c++
+					}
+				}
+			case *ast.IncDecStmt:
+				if id := rootIdent(v.X); id != nil && id.Obj == o && late {
+					c++
+				}
+			case *ast.UnaryExpr:
+				if v.Op == token.AND {
+					if id := rootIdent(v.X); id != nil && id.Obj == o {
+						c++
+					}
+				}
+			case *ast.RangeStmt:
+				for _, k := range []ast.Expr{v.Key, v.Value} {
+					if k != nil && v.Tok == token.ASSIGN {
+						if id := rootIdent(k); id != nil && id.Obj == o && late {
+							c++
+						}
+					}
+				}
+			}
+			return true
+		})
+	}
+	visit(n, false)
+	return c
+}
+
+// wgSkeleton: the sync.WaitGroup join — Add(n) with n the launch count before the launch loop (or Add(1) next to each go
+// statement), Wait() after the loop in the same statement list, the WaitGroup used for nothing else.
+func (a *analyser) wgSkeleton(lc *loopCtx, goIdx int, addBefore *ast.CallExpr, countObj *ast.Object) {
+	s := a.site
+	var adds, waits, dones []*ast.CallExpr
+	known := map[*ast.Ident]bool{}
+	ast.Inspect(a.fn.Body, func(x ast.Node) bool {
+		if c, ok := x.(*ast.CallExpr); ok {
+			if k := a.wgCall(c); k != "" {
+				known[c.Fun.(*ast.SelectorExpr).X.(*ast.Ident)] = true
+				switch k {
+				case "Add":
+					adds = append(adds, c)
+				case "Wait":
+					waits = append(waits, c)
+				case "Done":
+					dones = append(dones, c)
+				}
+			}
+		}
+		return true
+	})
+	uses := 0
+	ast.Inspect(a.fn.Body, func(x ast.Node) bool {
+		if id, ok := x.(*ast.Ident); ok && id.Obj == a.joinObj && id.Pos() != a.joinObj.Pos() && !known[id] {
+			uses++
+		}
+		return true
+	})
+	donesOutside := 0
+	for _, d := range dones {
+		if !within(d.Pos(), a.lit) {
+			donesOutside++
+		}
+	}
+	s.OtherChanUses = uses + donesOutside + max(len(adds)-1, 0) + max(len(waits)-1, 0)
+	// Add
+	if len(adds) == 1 {
+		add := adds[0]
+		switch {
+		case add == addBefore:
+			s.AddForm = "before"
+			s.RecvBound = show(add.Args[0])
+			s.SameBound = s.LaunchForm == "counted" && s.RecvBound == s.LaunchCount
+			if id, ok := add.Args[0].(*ast.Ident); ok && countObj != nil && id.Obj != countObj {
+				s.SameBound = false
+			}
+		case goIdx >= 0:
+			// Add(1) at the top level of the launch loop body, before the go statement, straight-line code in between
+			for i, st := range lc.body.List[:goIdx] {
+				if es, ok := st.(*ast.ExprStmt); ok && es.X == ast.Expr(add) {
+					if lit, ok := add.Args[0].(*ast.BasicLit); ok && lit.Value == "1" {
+						clean := true
+						for _, mid := range lc.body.List[i+1 : goIdx] {
+							if hasEscape(mid, true) {
+								clean = false
+							}
+						}
+						s.AddForm = "perLaunch"
+						s.RecvBound = "1 per launch"
+						s.SameBound = clean && s.GoTopLevelOnce
+					}
+				}
+			}
+		}
+	}
+	// Wait: a later sibling of the launch loop, nothing in between that could leave the function
+	if len(waits) == 1 {
+		for i, st := range lc.parent[lc.index+1:] {
+			if es, ok := st.(*ast.ExprStmt); ok && es.X == ast.Expr(waits[0]) {
+				s.RecvLoopFound = true
+				s.RecvPerIter = 1
+				s.RecvLoopClean = true
+				for _, mid := range lc.parent[lc.index+1 : lc.index+1+i] {
+					if hasEscape(mid, true) {
+						s.RecvLoopClean = false
+					}
+				}
+			}
+		}
+	}
+}
+
+// poolSkeleton: the channel of cell indices of a worker pool — made with the capacity of the fill bound, filled by one counted
+// loop with exactly 0..B-1, closed before the first worker starts, used for nothing else; at least one worker whenever B >= 1.
+func (a *analyser) poolSkeleton(g *ast.GoStmt) {
+	s := a.site
+	lc := findLoop(a.fn, g)
+	r := a.poolRange
+	if lc == nil || r == nil {
+		return
+	}
+	cc := r.X.(*ast.Ident).Obj
+	s.PoolChanMake = chanMake(cc)
+	if mk := makeCall(cc); mk != nil && len(mk.Args) == 2 {
+		s.PoolCap = show(mk.Args[1])
+	}
+	fillIdx := -1
+	fills := 0
+	var bound ast.Expr
+	for i, st := range lc.parent[:lc.index] {
+		v, b := countedLoop(st)
+		if v == nil {
+			continue
+		}
+		f := st.(*ast.ForStmt)
+		if len(f.Body.List) != 1 {
+			continue
+		}
+		sd, ok := f.Body.List[0].(*ast.SendStmt)
+		if !ok {
+			continue
+		}
+		ch, ok1 := sd.Chan.(*ast.Ident)
+		val, ok2 := sd.Value.(*ast.Ident)
+		if ok1 && ok2 && ch.Obj == cc && val.Obj == v {
+			fills++
+			fillIdx, bound = i, b
+		}
+	}
+	// or: a dedicated goroutine `go func() { for j := 0; j < B; j++ { cells <- j }; close(cells) }()` started before the launch loop
+	fillerClosed := false
+	for i, st := range lc.parent[:lc.index] {
+		if g, ok := st.(*ast.GoStmt); ok {
+			if ch, b := fillerOf(g); ch != nil && ch == cc {
+				fills++
+				fillIdx, bound = i, b
+				s.PoolFiller = true
+				fillerClosed = true
+			}
+		}
+	}
+	sendsOnCC := 0
+	ast.Inspect(a.fn.Body, func(x ast.Node) bool {
+		if sd, ok := x.(*ast.SendStmt); ok {
+			if id := rootIdent(sd.Chan); id != nil && id.Obj == cc {
+				sendsOnCC++
+			}
+		}
+		return true
+	})
+	if fills == 1 && sendsOnCC == 1 {
+		s.PoolFillOk = true
+		s.PoolFillBound = show(bound)
+		s.PoolCapMatches = s.PoolCap != "" && s.PoolCap == s.PoolFillBound
+		if s.PoolFiller {
+			s.PoolCapMatches = true // the filler blocks in its own goroutine: any capacity will do
+		}
+		for _, id := range identsOf(bound) {
+			if assignmentsFrom(a.fn.Body, id.Obj, cc.Pos()) > 0 {
+				s.PoolBoundReassigned = true
+			}
+		}
+		closes := 0
+		for _, st := range lc.parent[fillIdx+1 : lc.index] {
+			if es, ok := st.(*ast.ExprStmt); ok {
+				if c, ok := es.X.(*ast.CallExpr); ok {
+					if f, ok := c.Fun.(*ast.Ident); ok && f.Name == "close" && f.Obj == nil && len(c.Args) == 1 {
+						if id, ok := c.Args[0].(*ast.Ident); ok && id.Obj == cc {
+							closes++
+						}
+					}
+				}
+			}
+		}
+		s.PoolClosed = closes == 1
+		if s.PoolFiller {
+			s.PoolClosed = fillerClosed && closes == 0
+		}
+	}
+	uses := 0
+	ast.Inspect(a.fn.Body, func(x ast.Node) bool {
+		if id, ok := x.(*ast.Ident); ok && id.Obj == cc && id.Pos() != cc.Pos() {
+			uses++
+		}
+		return true
+	})
+	s.PoolOtherChanUses = uses - 3 // the fill send, the close, the range
+	if s.PoolOtherChanUses < 0 {
+		s.PoolOtherChanUses = -s.PoolOtherChanUses
+	}
+	key := r.Key.(*ast.Ident)
+	s.PoolRangeClean = !hasEscape(r.Body, true) && assignmentsTo(r.Body, key.Obj) == 0
+	// at least one worker whenever there is at least one cell index
+	s.PoolWorkersPositive = false
+	if v, w := countedLoop(lc.loop); v != nil && s.PoolFillOk {
+		switch x := w.(type) {
+		case *ast.BasicLit:
+			if n, err := strconv.Atoi(x.Value); err == nil && n >= 1 {
+				s.PoolWorkersPositive = true
+			}
+		case *ast.Ident:
+			if show(w) == s.PoolFillBound && x.Obj != nil && len(identsOf(bound)) == 1 && identsOf(bound)[0].Obj == x.Obj {
+				s.PoolWorkersPositive = true // one worker per cell index
+			} else if x.Obj != nil && positiveDecl(x.Obj, a.imports) {
+				// W := runtime.GOMAXPROCS(0) | runtime.NumCPU() | a positive literal, afterwards only clamped: if W > B { W = B }
+				clamps := 0
+				for _, st := range lc.parent[:lc.index] {
+					if isClamp(st, x.Obj, s.PoolFillBound) {
+						clamps++
+					}
+				}
+				s.PoolWorkersPositive = assignmentsTo(a.fn.Body, x.Obj) == clamps
+			}
+		}
+	}
+}
+
+// fillerOf: `go func() { for j := 0; j < B; j++ { ch <- j }; close(ch) }()` — a goroutine that does nothing but fill a captured
+// channel with exactly 0..B-1 and close it. Returns the channel and B (nil when the statement is anything else).
+func fillerOf(g *ast.GoStmt) (*ast.Object, ast.Expr) {
+	lit, ok := g.Call.Fun.(*ast.FuncLit)
+	if !ok || len(g.Call.Args) != 0 || lit.Type.Params == nil || len(lit.Type.Params.List) != 0 || len(lit.Body.List) != 2 {
+		return nil, nil
+	}
+	v, b := countedLoop(lit.Body.List[0])
+	if v == nil {
+		return nil, nil
+	}
+	f := lit.Body.List[0].(*ast.ForStmt)
+	if len(f.Body.List) != 1 {
+		return nil, nil
+	}
+	sd, ok := f.Body.List[0].(*ast.SendStmt)
+	if !ok {
+		return nil, nil
+	}
+	ch, ok1 := sd.Chan.(*ast.Ident)
+	val, ok2 := sd.Value.(*ast.Ident)
+	if !ok1 || !ok2 || ch.Obj == nil || val.Obj != v || within(ch.Obj.Pos(), lit) {
+		return nil, nil
+	}
+	es, ok := lit.Body.List[1].(*ast.ExprStmt)
+	if !ok {
+		return nil, nil
+	}
+	c, ok := es.X.(*ast.CallExpr)
+	if !ok || len(c.Args) != 1 {
+		return nil, nil
+	}
+	if fn, ok := c.Fun.(*ast.Ident); !ok || fn.Name != "close" || fn.Obj != nil {
+		return nil, nil
+	}
+	if id, ok := c.Args[0].(*ast.Ident); !ok || id.Obj != ch.Obj {
+		return nil, nil
+	}
+	// the bound must not mention the loop variable or anything declared in the goroutine
+	for _, id := range identsOf(b) {
+		if id.Obj != nil && within(id.Obj.Pos(), lit) {
+			return nil, nil
+		}
+	}
+	return ch.Obj, b
+}
+
+func makeCall(o *ast.Object) *ast.CallExpr {
+	var rhs ast.Expr
+	switch d := o.Decl.(type) {
+	case *ast.AssignStmt:
+		if len(d.Lhs) == len(d.Rhs) {
+			for i, l := range d.Lhs {
+				if id, ok := l.(*ast.Ident); ok && id.Obj == o {
+					rhs = d.Rhs[i]
+				}
+			}
+		}
+	case *ast.ValueSpec:
+		for i, n := range d.Names {
+			if n.Obj == o && i < len(d.Values) {
+				rhs = d.Values[i]
+			}
+		}
+	}
+	c, _ := rhs.(*ast.CallExpr)
+	return c
+}
+
+// positiveDecl: the variable is declared with a value that is at least 1: runtime.GOMAXPROCS(…), runtime.NumCPU(), a positive literal
+func positiveDecl(o *ast.Object, imports map[string]string) bool {
+	var rhs ast.Expr
+	switch d := o.Decl.(type) {
+	case *ast.AssignStmt:
+		if d.Tok == token.DEFINE && len(d.Lhs) == len(d.Rhs) {
+			for i, l := range d.Lhs {
+				if id, ok := l.(*ast.Ident); ok && id.Obj == o {
+					rhs = d.Rhs[i]
+				}
+			}
+		}
+	case *ast.ValueSpec:
+		for i, n := range d.Names {
+			if n.Obj == o && i < len(d.Values) {
+				rhs = d.Values[i]
+			}
+		}
+	}
+	switch v := rhs.(type) {
+	case *ast.BasicLit:
+		n, err := strconv.Atoi(v.Value)
+		return err == nil && n >= 1
+	case *ast.CallExpr:
+		if s, ok := v.Fun.(*ast.SelectorExpr); ok {
+			if x, ok := s.X.(*ast.Ident); ok && x.Obj == nil && imports[x.Name] == "runtime" {
+				return s.Sel.Name == "GOMAXPROCS" || s.Sel.Name == "NumCPU"
+			}
+		}
+	}
+	return false
+}
+
+// isClamp: `if W > B { W = B }` (no init, no else), B printed as `bound`
+func isClamp(st ast.Stmt, w *ast.Object, bound string) bool {
+	f, ok := st.(*ast.IfStmt)
+	if !ok || f.Init != nil || f.Else != nil || len(f.Body.List) != 1 {
+		return false
+	}
+	c, ok := f.Cond.(*ast.BinaryExpr)
+	if !ok || c.Op != token.GTR {
+		return false
+	}
+	if x, ok := c.X.(*ast.Ident); !ok || x.Obj != w || show(c.Y) != bound {
+		return false
+	}
+	as, ok := f.Body.List[0].(*ast.AssignStmt)
+	if !ok || as.Tok != token.ASSIGN || len(as.Lhs) != 1 || len(as.Rhs) != 1 {
+		return false
+	}
+	l, ok := as.Lhs[0].(*ast.Ident)
+	return ok && l.Obj == w && show(as.Rhs[0]) == bound
 }
 
 func zeroDecl(o *ast.Object) bool {
@@ -1389,23 +2772,27 @@ func funcName(fn *ast.FuncDecl) string {
 
 // safeAnalyseSite: a goroutine site whose plumbing has a form the extractor does not know (it indexes into the statement
 // shapes of the current template) must become an UNSUPPORTED site — a broken structural obligation — never a crash of the extractor.
-func safeAnalyseSite(file *ast.File, rel string, kind string, fn *ast.FuncDecl, g *ast.GoStmt, cellDims map[string]int) (s *Site) {
+func safeAnalyseSite(root string, dir string, file *ast.File, rel string, kind string, fn *ast.FuncDecl, g *ast.GoStmt, cellDims map[string]int) (s *Site, extra []calleeItem) {
 	defer func() {
 		if r := recover(); r != nil {
-			s = &Site{File: rel, Func: funcName(fn), Kind: kind, Line: line(g),
+			s = &Site{File: rel, Func: funcName(fn), Kind: kind, Line: line(g), Cover: "direct", Join: "none", Followed: []string{},
 				Unsupported: []string{fmt.Sprintf("the goroutine launch at line %d has a form the extractor does not know (%v)", line(g), r)}}
+			extra = nil
 		}
 	}()
-	return analyseSite(file, rel, kind, fn, g, cellDims)
+	return analyseSite(root, dir, file, rel, kind, fn, g, cellDims)
 }
 
-func analyseSite(file *ast.File, rel string, kind string, fn *ast.FuncDecl, g *ast.GoStmt, cellDims map[string]int) *Site {
+func analyseSite(root string, dir string, file *ast.File, rel string, kind string, fn *ast.FuncDecl, g *ast.GoStmt, cellDims map[string]int) (*Site, []calleeItem) {
 	lit := g.Call.Fun.(*ast.FuncLit)
 	s := &Site{File: rel, Func: funcName(fn), Kind: kind, Line: line(g), Events: []Event{}, Unsupported: []string{},
-		LoopBodyVarsCaptured: []string{}, CalleeWrites: []CalleeWrite{}}
-	a := &analyser{file: file, imports: importsOf(file), fn: fn, lit: lit, site: s, loopObjs: map[*ast.Object]bool{},
+		LoopBodyVarsCaptured: []string{}, CalleeWrites: []CalleeWrite{}, Cover: "direct", Join: "none", Followed: []string{}}
+	a := &analyser{root: root, file: file, imports: importsOf(file), fn: fn, lit: lit, site: s, loopObjs: map[*ast.Object]bool{},
 		bodyObjs: map[*ast.Object]bool{}, prov: map[*ast.Object]prov{}, vec: map[*ast.Object]*vecInfo{}, declared: map[string]bool{},
-		captured: map[string]bool{}, globals: map[string]bool{}, callees: map[string]bool{}, cellDims: cellDims}
+		captured: map[string]bool{}, globals: map[string]bool{}, callees: map[string]bool{}, cellDims: cellDims,
+		cellObjs: map[*ast.Object]bool{}, cellModObjs: map[*ast.Object]bool{}, structs: map[*ast.Object]*structVal{},
+		types: map[*ast.Object]*typeRef{}, retOf: map[*ast.CallExpr]*absVal{}, followed: map[*ast.CallExpr]bool{}}
+	a.fr = &frame{scope: lit, outer: fn, imports: a.imports, dir: dir, bind: map[*ast.Object]*binding{}, top: true}
 
 	// loop variables and variables declared in the loop body (outside the closure)
 	if lc := findLoop(fn, g); lc != nil {
@@ -1448,11 +2835,11 @@ func analyseSite(file *ast.File, rel string, kind string, fn *ast.FuncDecl, g *a
 			a.declared[n.Name] = true
 		}
 	}
+	var launchParam *ast.Ident // the closure parameter that receives the launch loop variable
 	for i, x := range g.Call.Args {
 		s.CallArgs = append(s.CallArgs, show(x))
-		if id, ok := x.(*ast.Ident); ok && id.Obj != nil && a.loopObjs[id.Obj] && i < len(params) && a.cellParam == nil {
-			a.cellParam = params[i].Obj
-			s.CellParam = params[i].Name
+		if id, ok := x.(*ast.Ident); ok && id.Obj != nil && a.loopObjs[id.Obj] && i < len(params) && launchParam == nil {
+			launchParam = params[i]
 		}
 	}
 	// the done channel: the captured channel the closure sends on
@@ -1466,10 +2853,74 @@ func analyseSite(file *ast.File, rel string, kind string, fn *ast.FuncDecl, g *a
 		return true
 	})
 	s.ChanMake = chanMake(a.chanObj)
+	if a.chanObj != nil {
+		s.Join = "chan"
+	} else {
+		// no done channel: a sync.WaitGroup declared in the enclosing function on which the closure calls Done()
+		ast.Inspect(lit.Body, func(x ast.Node) bool {
+			if c, ok := x.(*ast.CallExpr); ok && a.joinObj == nil {
+				if sel, ok := c.Fun.(*ast.SelectorExpr); ok && sel.Sel.Name == "Done" && len(c.Args) == 0 {
+					if id, ok := sel.X.(*ast.Ident); ok && id.Obj != nil && within(id.Obj.Pos(), fn.Body) && !within(id.Obj.Pos(), lit) && a.isWaitGroupDecl(id.Obj) {
+						a.joinObj = id.Obj
+						s.Chan, s.ChanMake, s.Join = id.Name, "waitgroup", "waitgroup"
+					}
+				}
+			}
+			return true
+		})
+		if a.joinObj != nil && len(lit.Body.List) > 0 {
+			if d, ok := lit.Body.List[0].(*ast.DeferStmt); ok && a.wgCall(d.Call) == "Done" {
+				a.deferredDone = d
+				s.DoneDeferred = true
+			}
+		}
+	}
+	// worker pool: the closure ranges, at its top level, over a captured channel made in the enclosing function; the range
+	// variable is then the cell index and the loop body the per-cell body
+	var ranges []*ast.RangeStmt
+	for _, st := range lit.Body.List {
+		if r, ok := st.(*ast.RangeStmt); ok {
+			if id, ok := r.X.(*ast.Ident); ok && id.Obj != nil && id.Obj != a.chanObj && within(id.Obj.Pos(), fn.Body) && !within(id.Obj.Pos(), lit) && chanMake(id.Obj) != "unknown" {
+				ranges = append(ranges, r)
+			}
+		}
+	}
+	switch {
+	case len(ranges) == 1:
+		r := ranges[0]
+		s.Cover = "pool"
+		s.PoolChan = r.X.(*ast.Ident).Name
+		if key, ok := r.Key.(*ast.Ident); ok && key.Obj != nil && key.Name != "_" && r.Tok == token.DEFINE && r.Value == nil {
+			a.poolRange = r
+			a.cellObjs[key.Obj] = true
+			s.CellParam = key.Name
+		} else {
+			s.Unsupported = append(s.Unsupported, fmt.Sprintf("range over the cell channel at line %d does not bind the cell index", line(r)))
+		}
+	case len(ranges) > 1:
+		s.Unsupported = append(s.Unsupported, fmt.Sprintf("%d loops over channels in the closure", len(ranges)))
+	}
+	if s.Cover == "direct" && launchParam != nil {
+		a.cellObjs[launchParam.Obj] = true
+		s.CellParam = launchParam.Name
+	}
 
-	a.stmts(lit.Body.List, true)
-	s.SendTail = a.chanObj != nil && a.tailOK(lit.Body.List)
+	a.stmts(lit.Body.List, s.Cover == "direct")
+	if a.joinObj != nil {
+		s.Sends = a.sendsIn(lit.Body)
+	}
+	switch {
+	case a.chanObj != nil:
+		s.SendTail = a.tailOK(lit.Body.List)
+	case a.deferredDone != nil:
+		s.SendTail = s.Sends == 1
+	case a.joinObj != nil:
+		s.SendTail = a.tailOK(lit.Body.List)
+	}
 	a.skeleton(g)
+	if s.Cover == "pool" {
+		a.poolSkeleton(g)
+	}
 
 	s.DeclaredInside = sortedKeys(a.declared)
 	s.Captured = sortedKeys(a.captured)
@@ -1484,7 +2935,7 @@ func analyseSite(file *ast.File, rel string, kind string, fn *ast.FuncDecl, g *a
 	if s.CallArgs == nil {
 		s.CallArgs = []string{}
 	}
-	return s
+	return s, a.extraCallees
 }
 
 func sortedKeys(m map[string]bool) []string {
@@ -1503,6 +2954,9 @@ type pkgFuncs struct {
 	dir   string
 	files map[string]*ast.File
 	funcs map[string]*ast.FuncDecl
+	methods map[string]*ast.FuncDecl // "Type.Method"
+	types map[string]*ast.TypeSpec
+	typeFile map[string]*ast.File
 	fileOf map[*ast.FuncDecl]*ast.File
 }
 
@@ -1512,7 +2966,8 @@ func loadPkg(dir string) *pkgFuncs {
 	if p, ok := pkgCache[dir]; ok {
 		return p
 	}
-	p := &pkgFuncs{dir: dir, files: map[string]*ast.File{}, funcs: map[string]*ast.FuncDecl{}, fileOf: map[*ast.FuncDecl]*ast.File{}}
+	p := &pkgFuncs{dir: dir, files: map[string]*ast.File{}, funcs: map[string]*ast.FuncDecl{}, fileOf: map[*ast.FuncDecl]*ast.File{},
+		methods: map[string]*ast.FuncDecl{}, types: map[string]*ast.TypeSpec{}, typeFile: map[string]*ast.File{}}
 	pkgCache[dir] = p
 	ents, err := os.ReadDir(dir)
 	if err != nil {
@@ -1528,14 +2983,41 @@ func loadPkg(dir string) *pkgFuncs {
 			continue
 		}
 		p.files[n] = f
+		p.index(f)
+	}
+	return p
+}
+
+func (p *pkgFuncs) index(f *ast.File) {
+	{
 		for _, d := range f.Decls {
 			if fd, ok := d.(*ast.FuncDecl); ok && fd.Recv == nil && fd.Body != nil {
 				p.funcs[fd.Name.Name] = fd
 				p.fileOf[fd] = f
 			}
+			if fd, ok := d.(*ast.FuncDecl); ok && fd.Recv != nil && fd.Body != nil {
+				p.methods[funcName(fd)] = fd
+				p.fileOf[fd] = f
+			}
+			if g, ok := d.(*ast.GenDecl); ok && g.Tok == token.TYPE {
+				for _, sp := range g.Specs {
+					if ts, ok := sp.(*ast.TypeSpec); ok {
+						p.types[ts.Name.Name] = ts
+						p.typeFile[ts.Name.Name] = f
+					}
+				}
+			}
 		}
 	}
-	return p
+}
+
+// registerFile: a parsed file that exists only in memory (an expansion of the wrapper template) as a package of its own, so that
+// calls into its functions and methods can be followed
+func registerFile(dir string, name string, f *ast.File) {
+	p := &pkgFuncs{dir: dir, files: map[string]*ast.File{name: f}, funcs: map[string]*ast.FuncDecl{}, fileOf: map[*ast.FuncDecl]*ast.File{},
+		methods: map[string]*ast.FuncDecl{}, types: map[string]*ast.TypeSpec{}, typeFile: map[string]*ast.File{}}
+	pkgCache[dir] = p
+	p.index(f)
 }
 
 const modulePath = "github.com/flowmatters/openwater-core"
@@ -1545,10 +3027,8 @@ var readOnlyMethods = map[string]bool{"Get": true, "Get1": true, "Get2": true, "
 	"NDims": true, "NewIndex": true, "Index": true, "Contiguous": true, "Slice": true, "Unroll": true, "Maximum": true, "Minimum": true,
 	"String": true, "Error": true}
 
-func scanCallees(root string, s *Site, dir string, start []string, startImports map[string]string) {
-	type item struct {
-		dir, name string
-	}
+func scanCallees(root string, s *Site, dir string, start []string, startImports map[string]string, extra []calleeItem) {
+	type item = calleeItem
 	seen := map[item]bool{}
 	var queue []item
 	push := func(dir string, imports map[string]string, name string) {
@@ -1568,11 +3048,21 @@ func scanCallees(root string, s *Site, dir string, start []string, startImports 
 	for _, n := range start {
 		push(dir, startImports, n)
 	}
+	for _, it := range extra {
+		// callees of followed functions (already resolved to their package), and the followed functions / methods themselves
+		if !seen[it] {
+			seen[it] = true
+			queue = append(queue, it)
+		}
+	}
 	for len(queue) > 0 {
 		it := queue[0]
 		queue = queue[1:]
 		p := loadPkg(it.dir)
 		fd := p.funcs[it.name]
+		if fd == nil {
+			fd = p.methods[it.name]
+		}
 		if fd == nil {
 			continue
 		}
@@ -1801,7 +3291,7 @@ func violations(f *Facts) {
 				add(s.File, "shared-write", fmt.Sprintf("%s of %s %s — %s", e.Access, e.Root, e.Var, what))
 			case "call":
 				if mutating[e.Method] {
-					own := e.Root == "viewOwn" || (e.Root == "captured" && (e.Loc == "ownLit" || e.Loc == "ownVec"))
+					own := e.Root == "viewOwn" || ((e.Root == "captured" || e.Root == "whole") && (e.Loc == "ownLit" || e.Loc == "ownVec"))
 					if !own {
 						add(s.File, "shared-write", fmt.Sprintf("%s on %s %s with location class %s — %s", e.Method, e.Root, e.Var, e.Loc, what))
 					}
@@ -1835,8 +3325,18 @@ func violations(f *Facts) {
 				}
 			}
 		}
-		if s.CellParam == "" {
+		if s.CellParam == "" && s.Cover != "pool" {
 			add(s.File, "loop-var", "no closure parameter receives the loop variable")
+		}
+		if s.Cover == "pool" {
+			if s.CellParam == "" || (s.PoolChanMake != "buffered" && !s.PoolFiller) || s.PoolChanMake == "unknown" || !s.PoolFillOk || !s.PoolCapMatches || !s.PoolClosed || !s.PoolRangeClean ||
+				s.PoolOtherChanUses != 0 || s.PoolBoundReassigned || !s.PoolWorkersPositive {
+				add(s.File, "cell-coverage", fmt.Sprintf("worker pool: the channel of cell indices must be made with the capacity of the fill bound, filled by one loop with exactly 0..B-1, "+
+					"closed before the first worker starts, ranged over at the top level of the worker and used for nothing else, with at least one worker "+
+					"(chan=%q make=%s cap=%q fillBound=%q fillOk=%v capMatches=%v closed=%v rangeClean=%v otherUses=%d boundReassigned=%v workersPositive=%v)",
+					s.PoolChan, s.PoolChanMake, s.PoolCap, s.PoolFillBound, s.PoolFillOk, s.PoolCapMatches, s.PoolClosed, s.PoolRangeClean,
+					s.PoolOtherChanUses, s.PoolBoundReassigned, s.PoolWorkersPositive))
+			}
 		}
 		if s.CapturesLoopVar {
 			add(s.File, "loop-var", fmt.Sprintf("the closure uses the loop variable(s) %v directly", s.LoopVars))
@@ -1847,18 +3347,24 @@ func violations(f *Facts) {
 		for _, u := range s.Unsupported {
 			add(s.File, "unsupported", u)
 		}
-		if s.Chan == "" || !s.SendTail || s.Sends < 1 || s.ReturnsInClosure > 0 {
-			add(s.File, "join", fmt.Sprintf("closure must end every path with exactly one send on the done channel (chan=%q sends=%d tail=%v returns=%d)",
-				s.Chan, s.Sends, s.SendTail, s.ReturnsInClosure))
+		if s.Chan == "" || !s.SendTail || s.Sends < 1 || (s.ReturnsInClosure > 0 && !s.DoneDeferred) {
+			add(s.File, "join", fmt.Sprintf("closure must end every path with exactly one send on the done channel / Done() on the WaitGroup (join=%s object=%q signals=%d tail=%v returns=%d deferred=%v)",
+				s.Join, s.Chan, s.Sends, s.SendTail, s.ReturnsInClosure, s.DoneDeferred))
 		}
-		if s.Kind != "models" && s.Sends != 1 {
-			add(s.File, "join", fmt.Sprintf("%d send statements in the closure (exactly one expected)", s.Sends))
+		if (s.Kind != "models" || s.Join == "waitgroup") && s.Sends != 1 {
+			add(s.File, "join", fmt.Sprintf("%d send / Done statements in the closure (exactly one expected)", s.Sends))
 		}
 		if !(s.LaunchForm == "counted" || s.LaunchForm == "counter") || !s.GoTopLevelOnce || !s.LaunchLoopClean || s.CountReassigned {
 			add(s.File, "join", fmt.Sprintf("number of launched goroutines not determined (form=%s count=%q goTopLevelOnce=%v loopClean=%v countReassigned=%v)",
 				s.LaunchForm, s.LaunchCount, s.GoTopLevelOnce, s.LaunchLoopClean, s.CountReassigned))
 		}
-		if !s.RecvLoopFound || !s.SameBound || s.RecvPerIter != 1 || !s.RecvLoopClean || s.OtherChanUses != 0 {
+		if s.Join == "waitgroup" {
+			if !s.RecvLoopFound || !s.SameBound || s.RecvPerIter != 1 || !s.RecvLoopClean || s.OtherChanUses != 0 || s.AddForm == "" {
+				add(s.File, "join", fmt.Sprintf("WaitGroup join: Add(%q) before the launch loop (or Add(1) next to the go statement), Wait() after the loop, no other use "+
+					"(add=%q count=%q same=%v waitFound=%v waits=%d clean=%v otherUses=%d)",
+					s.LaunchCount, s.AddForm, s.RecvBound, s.SameBound, s.RecvLoopFound, s.RecvPerIter, s.RecvLoopClean, s.OtherChanUses))
+			}
+		} else if !s.RecvLoopFound || !s.SameBound || s.RecvPerIter != 1 || !s.RecvLoopClean || s.OtherChanUses != 0 {
 			add(s.File, "join", fmt.Sprintf("the parent must receive exactly %q times after the loop (found=%v bound=%q same=%v recvPerIter=%d clean=%v otherChanUses=%d)",
 				s.LaunchCount, s.RecvLoopFound, s.RecvBound, s.SameBound, s.RecvPerIter, s.RecvLoopClean, s.OtherChanUses))
 		}
@@ -1954,6 +3460,11 @@ func main() {
 				kind = "models"
 			}
 			_, isLit := g.Call.Fun.(*ast.FuncLit)
+			if ch, _ := fillerOf(g); ch != nil && kind == "cells" {
+				// the dedicated filler goroutine of a worker pool: part of the pool site's facts (poolSkeleton), not a site of its own
+				facts.GoStmts = append(facts.GoStmts, GoStmtRef{File: rel, Func: funcName(fd), Line: line(g), Site: false})
+				continue
+			}
 			facts.GoStmts = append(facts.GoStmts, GoStmtRef{File: rel, Func: funcName(fd), Line: line(g), Site: kind != "" && isLit})
 			if kind == "" {
 				continue
@@ -1962,14 +3473,14 @@ func main() {
 				facts.Errors = append(facts.Errors, fmt.Sprintf("%s:%d: go statement does not start a function literal", rel, line(g)))
 				continue
 			}
-			s := safeAnalyseSite(f, rel, kind, fd, g, facts.CellDims)
+			s, extra := safeAnalyseSite(root, filepath.Dir(p), f, rel, kind, fd, g, facts.CellDims)
 			func() {
 				defer func() {
 					if r := recover(); r != nil {
 						s.Unsupported = append(s.Unsupported, fmt.Sprintf("callee scan failed on a form the extractor does not know: %v", r))
 					}
 				}()
-				scanCallees(root, s, filepath.Dir(p), s.Callees, importsOf(f))
+				scanCallees(root, s, filepath.Dir(p), s.Callees, importsOf(f), extra)
 			}()
 			if kind == "cells" {
 				facts.WrapperSites++
@@ -1988,12 +3499,14 @@ func main() {
 	}
 	sort.Strings(names)
 	facts.TemplateVariants = len(names)
-	for _, n := range names {
+	for vi, n := range names {
 		f, err := parser.ParseFile(fset, n, vars[n], 0)
 		if err != nil {
 			facts.Errors = append(facts.Errors, fmt.Sprintf("%s: expansion does not parse: %v", n, err))
 			continue
 		}
+		vdir := filepath.Join(root, "pre", "ow-specgen", fmt.Sprintf("synthetic-%d", vi))
+		registerFile(vdir, "synthetic.go", f)
 		for g, fd := range goFuncSites(f) {
 			if fd.Name.Name != "Run" {
 				continue
@@ -2001,7 +3514,7 @@ func main() {
 			if _, ok := g.Call.Fun.(*ast.FuncLit); !ok {
 				continue
 			}
-			s := safeAnalyseSite(f, n, "template", fd, g, facts.CellDims)
+			s, _ := safeAnalyseSite(root, vdir, f, n, "template", fd, g, facts.CellDims)
 			facts.TemplateSites++
 			facts.Sites = append(facts.Sites, *s)
 		}
